@@ -4,7 +4,7 @@ import json, os
 
 from .report import VERIF
 
-LEVEL = {}
+LEVEL = {"C19": "exploration", "C20": "exploration"}
 
 EFF_FAMILIES = {
     "C01": ["PROV", "FRAME-view", "POP-own"],
@@ -196,6 +196,54 @@ def _full_case(r, tier, seed):
     return c
 
 
+def _laws_component(R, pid):
+    from . import laws
+    res = laws.run(pid)
+    bad = [x for x in res if not x[2]]
+    seen = set()
+    for fam, desc, ok, msg in bad:
+        key = "LAW." + pid + "." + desc.split(" ")[0].split("(")[0]
+        if key in seen:
+            continue
+        seen.add(key)
+        R.violation(key, f"{desc}: {msg}", {"replay_kind": "script", "script":
+                    "import sys; sys.path.insert(0, %r); sys.path.insert(0, %r)\nfrom pyvc import laws\n"
+                    "bad=[x for x in laws.run(%r) if not x[2]]\nprint(bad[:5])\nsys.exit(1 if bad else 0)" % (
+                        os.environ.get("PYVC_REPO", "/repo"), VERIF, pid)})
+    R.bounded[f"LAWS:{pid}"] = {"evaluations": len(res), "distinct_nontrivial": len({x[1] for x in res}),
+                                "rule": "law instances enumerated by pyvc/laws.py (variable kinds x bounds / choice lists x value alphabet "
+                                        "incl. boundary, huge, +-inf, fractional, numpy scalars; variable mixes incl. size-1 multi-variables)",
+                                "bound": "the enumerated alphabets; <= 8 choices, <= 6 items, <= 5 variables per task",
+                                "samples": [x[1] for x in res[:3]]}
+    R.assume("law campaign: bounded, not proved")
+
+
+def _scenario_component(R, pid):
+    from . import scenarios
+    res = scenarios.run(pid)
+    seen = set()
+    for fam, desc, ok, msg in res:
+        if ok:
+            continue
+        key = "SCN." + pid + "." + desc.split(":")[-1].strip()[:60]
+        if key in seen:
+            continue
+        seen.add(key)
+        R.violation(key, f"{desc}: {msg}", {"replay_kind": "script", "script":
+                    "import sys; sys.path.insert(0, %r); sys.path.insert(0, %r)\nfrom pyvc import scenarios\n"
+                    "bad=[x for x in scenarios.run(%r) if not x[2]]\nprint(bad[:5])\nsys.exit(1 if bad else 0)" % (
+                        os.environ.get("PYVC_REPO", "/repo"), VERIF, pid)})
+    R.bounded[f"SCENARIOS:{pid}"] = {
+        "evaluations": len(res), "distinct_nontrivial": len({x[1] for x in res}),
+        "rule": "contract instances enumerated by pyvc/scenarios.py with a scripted optimizer whose calls are logged: " + (
+            "parameter grids of 1..3 keys x 1..3 values (dict and list of dicts) exhaustively for the ParameterGrid laws; execute / resolve on "
+            "score tables with ties, min and max, 1..3 trials" if pid == "C19" else
+            "n, m in 1..3 x the four shapes of modes plus None x 1..2 trials; three export formats; unknown modes"),
+        "bound": "the enumerated family only", "samples": [x[1] for x in res[:3]]}
+    R.assume("bounded scenario check: ParameterGrid / HyperTuner / Multitask use generators, itertools, pandas and process pools - outside "
+             "the VC subset of pyvc; no obligation is counted as proved for this property")
+
+
 def compose(R, pid, tier, seed, bnd):
     from .props import _vc_component
     from .contract import REG
@@ -206,6 +254,10 @@ def compose(R, pid, tier, seed, bnd):
     _eff_component(R, pid)
     if bnd:
         _bnd_component(R, pid, tier, seed)
+        if pid in ("C13", "C14"):
+            _laws_component(R, pid)
+    if pid in ("C19", "C20"):
+        _scenario_component(R, pid)
     # lemma scripts (Lean) and canaries are run by the thorough tier
     if tier == "thorough":
         from .extras import thorough_extras
